@@ -35,7 +35,7 @@ na = [{"property_id": pid, "reason": "not claimed yet: Lean model, theorems and 
       for pid in ALL if pid not in CLAIMED]
 m = {
     "version": 1,
-    "setup_cmd": "cd lean && lake build",
+    "setup_cmd": "cd lean && lake build " + " ".join("drv_%s SciVerif.Props.%s" % (c["property_id"].lower(), c["property_id"]) for c in checks),
     "hooks": {
         "guard": "VRTULKA23_SCINUMTOOLS_VERIF",
         "enable": "no source hooks are used; checks import /repo/src (working tree) in-process with VRTULKA23_SCINUMTOOLS_VERIF=1 set",
